@@ -553,9 +553,7 @@ func (a *cacheAd) Do(o *model.Op) (r model.Res) {
 		} else {
 			c.SetEvictedCallback(nil)
 		}
-		if (c.EvictedCallback() != nil) != o.On {
-			r.Note += "EvictedCallback() getter disagrees with SetEvictedCallback; "
-		}
+		r.OK = c.EvictedCallback() != nil // checked by the sequential engine only (another thread may swap it concurrently)
 	case model.HBulkSet:
 		for i := 0; i < o.N; i++ {
 			c.Set(a.kc.to(o.Key+i), o.Val+i, d)
@@ -731,9 +729,7 @@ func (a *cacheOfAd[K]) Do(o *model.Op) (r model.Res) {
 		} else {
 			c.SetEvictedCallback(nil)
 		}
-		if (c.EvictedCallback() != nil) != o.On {
-			r.Note += "EvictedCallback() getter disagrees with SetEvictedCallback; "
-		}
+		r.OK = c.EvictedCallback() != nil // checked by the sequential engine only (another thread may swap it concurrently)
 	case model.HBulkSet:
 		for i := 0; i < o.N; i++ {
 			c.Set(a.kc.to(o.Key+i), o.Val+i, d)
